@@ -562,8 +562,14 @@ impl Expression {
 
             let value = self.eval_value(context);
             let comptime = self.comptime_mut();
-            if comptime.value.is_unknown()
-                && let Some(x) = &value
+            // A const reference carries the WHOLE constant as preset value;
+            // with a bit/part select the evaluated value is the selected
+            // bits, so the evaluation result must replace it (the const fold
+            // below hides this for known values, not for x/z ones).
+            if matches!(
+                comptime.value,
+                ValueVariant::Unknown | ValueVariant::Numeric(_)
+            ) && let Some(x) = &value
             {
                 comptime.value = ValueVariant::Numeric(x.clone());
             }
